@@ -28,7 +28,7 @@ PROPS = {
                      "RemoveUnreachableStates / RemoveUselessStates / IsLangEmpty judged by equivM, allReachableB, allUsefulB, "
                      "emptyM and compared exactly with the models; non-trivial = some rule dropped by one of the operations",
                 assumptions=PROOF_ASSUME),
-    "C04": dict(level="proof", cli=dict(kinds=[("cliop_c04", 1)], quick=150, thorough=4000), kinds=[("simdown", 12), ("simup", 12), ("binrel", 1)], n=dict(quick=3120, thorough=300000, search=4000),
+    "C04": dict(level="proof", cli=dict(kinds=[("cliop_c04", 1)], quick=150, thorough=4000), kinds=[("simdown", 12), ("simup", 12), ("binrel", 1), ("ltsutil", 1)], n=dict(quick=3240, thorough=300000, search=4000),
                 rule="automata numbered 0..n-1 in random order with n passed (downward: arbitrary, with useless and leaf-only "
                      "states; upward: trimmed by construction, precondition re-checked by the driver); the relation read back "
                      "with get(q,r) on all states is compared exactly with the greatest downward / upward simulation computed "
@@ -73,7 +73,7 @@ PROPS = {
                      "emptyW (proved), every live automaton re-read after every step; non-trivial = some product or witness "
                      "non-empty",
                 assumptions=PROOF_ASSUME),
-    "C16": dict(level="proof", kinds=[("lts", 24), ("binrel", 1)], n=dict(quick=4160, thorough=200000, search=4000),
+    "C16": dict(level="proof", kinds=[("lts", 24), ("binrel", 1), ("ltsutil", 1)], n=dict(quick=4320, thorough=200000, search=4000),
                 rule="LTSs with 1–8 states (12 %: 13–30 states so that the engine's counter rows, block splits and remove "
                      "lists are exercised), 1–4 labels, parallel edges, isolated states, labels with one edge; random "
                      "partitions into non-empty blocks with random preorders (reflexive-transitive closures) on the blocks; all "
